@@ -119,12 +119,10 @@ class StmtMixin:
     def pure_result(self, c, env_vals, rt, st):
         """Result of a pure callee: a function of its arguments (and, conservatively, nothing else is assumed
         beyond the postcondition) -- equal arguments give equal results within one heap state."""
+        if not c.heap_independent:
+            return ty.fresh(rt, "ret_" + c.name.split(".")[-1])
         sorts = [ty.sort_of(v.t) for v in env_vals.values()]
         f = z3.Function("pure_%s" % c.name.replace(".", "_").replace(":", "_"), *sorts, ty.sort_of(rt))
-        if c.ghost_in or any(True for _ in ()):  # placeholder for heap-dependent purity
-            pass
-        if getattr(c, "heap_dependent", True) and not c.external:
-            return ty.fresh(rt, "ret_" + c.name.split(".")[-1])
         return SV(rt, f(*[v.e for v in env_vals.values()]))
 
     # =====================================================================================
